@@ -217,6 +217,40 @@ def run(ctx):
             ctx.violation("command-acts-on-selected-account/" + kind, case, w, str(r)[:300])
     ctx.sample(dict(op="address", mnemonic=accounts[0]["phrase"], selector=accounts[0]["sel"], address=pyref.eip55(pyref.address_of_key(accounts[0]["key"]))))
 
+    # the first index that is NOT an account (2^31, and its neighbours above) is refused on every command, by flag and by variable
+    a = accounts[0]
+    oor = []
+    for v in (B31, B31 + 1, (1 << 32) - 1, 1 << 32):
+        for sub in (["address"], ["export"], ["public-key"], ["sign"]):
+            tail = ["raw", "0x" + raw.hex()] if sub == ["sign"] else []
+            oor.append(dict(args=sub + ["--mnemonic", a["phrase"], "--account-index", str(v)] + tail, v=v))
+            oor.append(dict(args=sub + ["--mnemonic", a["phrase"]] + tail, env=dict(ACCOUNT_INDEX=str(v)), v=v))
+    for rn, r in zip(oor, ctx.cli(oor)):
+        ctx.count("account-index-out-of-range")
+        ctx.distinct(("oor", tuple(rn["args"][:1]), rn["v"], bool(rn.get("env"))))
+        if r.cls != "error" or r.stdout != b"":
+            ctx.violation("account-index-out-of-range-refused", dict(op="hdwallet " + " ".join(short(x, 40) for x in rn["args"]), env=rn.get("env"), index=rn["v"]),
+                          "error, nothing printed", str(r)[:300])
+    # messages whose text looks like a digest, an address or hex data are signed as the text they are: `sign message` signs
+    # exactly the digest that `hash message` prints
+    a0 = accounts[0]
+    lk = [b"0x" + b"ab" * 32, b"ab" * 32, b"0x" + b"AB" * 32, b"0x", b"0xdeadbeef", b"0x" + b"11" * 20, b"0x" + b"ab" * 32 + b"\n", b"\x19Ethereum Signed Message:\n5hello"]
+    lruns, lwant = [], []
+    for k, m2 in enumerate(lk):
+        p2 = os.path.join(tmp, "lk%d.txt" % k)
+        open(p2, "wb").write(m2)
+        dg = pyref.keccak256(b"\x19Ethereum Signed Message:\n" + str(len(m2)).encode() + m2)
+        fl = ["--mnemonic", a0["phrase"]] + (["--password", a0["pw"]] if a0["pw"] else []) + sel_args(a0["sel"])[0]
+        for args, stdin in ((["sign"] + fl + ["message", p2], None), (["sign"] + fl + ["message", "-"], m2)):
+            lruns.append(dict(args=args, stdin=stdin))
+            lwant.append(sig_text(a0["key"], dg))
+        lruns.append(dict(args=["hash", "message", p2]))
+        lwant.append("0x" + dg.hex())
+    for rn, w, r in zip(lruns, lwant, ctx.cli(lruns)):
+        ctx.count("message-that-looks-like-hex")
+        ctx.distinct(("lookalike", tuple(rn["args"][-2:]), rn.get("stdin")))
+        if r.cls != "ok" or r.stdout.decode().strip() != w:
+            ctx.violation("sign-message-signs-the-digest-hash-message-prints", dict(op="hdwallet " + " ".join(short(x, 40) for x in rn["args"])), w, str(r)[:300])
     # the two selectors cannot be combined (flag+flag, env+flag, flag+env)
     a = accounts[0]
     conf = [dict(args=["address", "--mnemonic", a["phrase"], "--account-index", "1", "--hd-path", "m/0"]),
